@@ -2960,6 +2960,20 @@ func (p *Posix) PutObject(ctx context.Context, po s3response.PutObjectInput) (s3
 		}
 	}
 
+	// Set object tagging together with the other object attributes, before
+	// the object is published: tags set through the path afterwards would
+	// land on whatever object a concurrent upload has published meanwhile
+	if tags != nil {
+		b, err := json.Marshal(tags)
+		if err != nil {
+			return s3response.PutObjectOutput{}, fmt.Errorf("marshal tags: %w", err)
+		}
+		err = p.meta.StoreAttribute(f.File(), *po.Bucket, *po.Key, tagHdr, b)
+		if err != nil {
+			return s3response.PutObjectOutput{}, fmt.Errorf("set tags: %w", err)
+		}
+	}
+
 	verifhook.At("put.attrs_done", "path", name)
 	err = f.link()
 	if errors.Is(err, syscall.EEXIST) {
@@ -2973,20 +2987,6 @@ func (p *Posix) PutObject(ctx context.Context, po s3response.PutObjectInput) (s3
 	}
 
 	verifhook.At("put.linked", "path", name)
-	// Set object tagging
-	if tags != nil {
-		err := p.PutObjectTagging(ctx, *po.Bucket, *po.Key, tags)
-		if errors.Is(err, fs.ErrNotExist) {
-			return s3response.PutObjectOutput{
-				ETag:      etag,
-				VersionID: versionID,
-			}, nil
-		}
-		if err != nil {
-			return s3response.PutObjectOutput{}, err
-		}
-	}
-
 	verifhook.At("put.tags_done", "path", name)
 	// Set object legal hold
 	if po.ObjectLockLegalHoldStatus == types.ObjectLockLegalHoldStatusOn {
